@@ -180,14 +180,14 @@ def drive_coroutine(ctx, igen, need_cb=None):
     """drive an interpreted decoder coroutine: feed a fresh symbolic byte for each `None`,
     `None` for each event; records the trace.  returns (outcome, value)"""
     to_send = None
-    ctx.ghost.setdefault("pos", 0)
+    ctx.ghost.setdefault("pos", z3.IntVal(0))
     try:
         while True:
             y = igen.g.send(to_send)
             if y is None:
                 b = ctx.fresh_int("b", 0, 255)
                 ctx.trace.append(("need", b))
-                ctx.ghost["pos"] = ctx.ghost["pos"] + 1
+                ctx.ghost["pos"] = z3.simplify(ctx.ghost["pos"] + 1)
                 to_send = S.SInt(b)
             else:
                 ctx.trace.append(("emit", y))
@@ -317,14 +317,19 @@ def check_against_spec(ctx, name, spec_fn, goal_fn, kind="post", site="", max_ca
         except Unsupported as e:
             obs.append(ctx.record(name, False, kind, site, f"comparison unsupported: {e}", undecided=True))
             continue
-        if isinstance(goal, bool):
-            if goal or not extra:
-                ob = ctx.record(name, goal, kind, site, detail=f"expected {expected!r}")
+        goals = goal if isinstance(goal, dict) else {"": goal}
+        for sub, g in goals.items():
+            nm = f"{name}/{sub}" if sub else name
+            det = f"expected {expected!r}"[:400] if not isinstance(goal, dict) else ""
+            if isinstance(g, tuple):
+                g, det = g
+            if isinstance(g, bool):
+                if g or not extra:
+                    ob = ctx.record(nm, g, kind, site, detail=det)
+                else:
+                    ob = ctx.oblige(nm, z3.Not(z3.And(extra)), kind, site, detail=det)
             else:
-                # structurally different under a feasible case
-                ob = ctx.oblige(name, z3.Not(z3.And(extra)), kind, site, detail=f"expected {expected!r}")
-        else:
-            g = z3.Implies(z3.And(extra), goal) if extra else goal
-            ob = ctx.oblige(name, g, kind, site, detail=f"expected {expected!r}")
-        obs.append(ob)
+                gg = z3.Implies(z3.And(extra), g) if extra else g
+                ob = ctx.oblige(nm, gg, kind, site, detail=det)
+            obs.append(ob)
     return obs
